@@ -14,7 +14,7 @@ LEVEL = "exploration"
 ENGINE = "E5"
 TECHNIQUE = "bounded exhaustive enumeration of macro use forms x combinations x definition orders x file splits; the real expander+compiler output is compared with the compiled manually-inlined rule (text, then behaviour on all listings)"
 RULE = ("use forms U (each paired with its manual inlining): string macro as list item, as operand, inside a name (prefix, "
-        "suffix), as key with a times body, as $deref field value; list macro (5 instruction-level bodies) as list item, as "
+        "suffix), as key with a times body, as $deref field value; list macro (8 instruction-level bodies, three of them carrying a repetition count inside / as sibling / as range) as list item, as "
         "'@m:' key, inside $or/$not/$and_any_order; operand-level list macro; parameterised macro with 1 and 2 formals (in list-element and in dict-value position, nested up to three levels) "
         "called with leaf, sub-tree and falsy (YAML int 0) arguments, with equal and with different arguments; a macro whose body uses "
         "another macro (user listed first); a macro used inside a macro argument; three parameterised macros where a body calls another with a constant argument and formals share a name; a shared-library family: one macro file left unchanged on disk, used by a sequence of rules that define the macro it refers to differently; scale family: a chain of 5 macros each using the next, one macro used 8 times, a parameterised macro called 8 times with different arguments, 12 macros in one rule. Rules: EVERY sequence of length 1..K over "
@@ -22,7 +22,7 @@ RULE = ("use forms U (each paired with its manual inlining): string macro as lis
         "admissible order of the definition list and EVERY split of the definitions between the rule file and 1..2 extra "
         "macro files (both orders of the files). Oracle: Yaml2Regex(...).produce_regex() of the macro rule equals that of "
         "the inlined rule; if the texts differ both are run on every listing of length <= 3 over a 13-instruction alphabet "
-        "and must agree; produce_regex() called twice on one object gives the same text (definitions not altered by use). "
+        "and must agree; produce_regex() called twice on one object gives the same text, or else the same results on every listing (definitions not altered by use). "
         "Non-trivial = every (rule, order, split) case containing at least one macro use.")
 ASSUMPTIONS = ["macro names are not contained in one another; a macro is listed before the macros its body refers to (property scope)",
                "formal parameters only in leaf positions (list element, dict value)"]
@@ -39,13 +39,16 @@ M_P1 = {"name": "@p1", "args": ["a1"], "pattern": [{"$or": [{"xor": ["a1", "a1"]
 M_P2 = {"name": "@p2", "args": ["a1", "a2"], "pattern": [{"mov": ["a1", "a2"]}]}
 M_P3 = {"name": "@p3", "args": ["i1", "i2"], "pattern": [{"$and": ["i1", "i2"]}]}
 M_O = {"name": "@o", "pattern": [{"$or": ["rax", "rcx"]}]}
+M_PT = {"name": "@pt", "args": ["a1"], "pattern": [{"mov": ["a1"], "times": {"min": 1, "max": 2}}]}     # parameterised body with a repetition range
 # formal parameters in dict-VALUE position ($deref fields) and nested two levels deep
 M_PD = {"name": "@pd", "args": ["b1", "k1"], "pattern": [{"mov": [{"$deref": {"main_reg": "b1", "constant_offset": "k1"}}, "rcx"]}]}
 M_PN = {"name": "@pn", "args": ["n1"], "pattern": [{"$or": [{"$and": [{"mov": ["n1", "rbx"]}, {"push": ["n1"]}]}, "ret"]}]}
 M_N = {"name": "@n", "pattern": [{"$or": ["@s", "push"]}]}          # body uses @s: @n must be listed before @s
 M_NP = {"name": "@np", "args": ["a1"], "pattern": [{"@s": ["a1", "@r"]}]}  # hmm key position: not a supported form
 LBODIES = {"@l1": "push", "@l2": {"mov": ["rax"]}, "@l3": {"$or": ["mov", "push"]}, "@l4": {"$not": ["ret"]},
-           "@l5": {"$and": ["mov", "push"]}}
+           "@l5": {"$and": ["mov", "push"]},
+           # bodies that carry a repetition count (YAML integers inside a definition; `times` inside and as sibling)
+           "@l6": {"mov": {"times": 2}}, "@l7": {"$or": ["mov", "push"], "times": {"min": 0, "max": 2}}, "@l8": {"mov": ["rax"], "times": 2}}
 
 
 def ML(n):
@@ -84,6 +87,7 @@ def uses(tier):
         ({"@pd": None, "b1": "rax", "k1": "0x8"}, {"mov": [{"$deref": {"main_reg": "rax", "constant_offset": "0x8"}}, "rcx"]}, [M_PD], []),
         ({"@pd": None, "b1": "%rbx", "k1": "0x10"}, {"mov": [{"$deref": {"main_reg": "%rbx", "constant_offset": "0x10"}}, "rcx"]}, [M_PD], []),
         ({"@pn": None, "n1": "rax"}, {"$or": [{"$and": [{"mov": ["rax", "rbx"]}, {"push": ["rax"]}]}, "ret"]}, [M_PN], []),
+        ({"@pt": None, "a1": "rax"}, {"mov": ["rax"], "times": {"min": 1, "max": 2}}, [M_PT], []),
         ({"@p3": None, "i1": "mov", "i2": "push"}, {"$and": ["mov", "push"]}, [M_P3], []),
         ({"@p3": None, "i1": {"push": ["rax"]}, "i2": "ret"}, {"$and": [{"push": ["rax"]}, "ret"]}, [M_P3], []),
         ("@n", {"$or": ["mov", "push"]}, [M_N, M_S], [("@n", "@s")]),
@@ -92,7 +96,7 @@ def uses(tier):
     for n, body in LBODIES.items():
         U.append((n, body, [ML(n)], []))
         U.append(({n: None}, body, [ML(n)], []))
-        if tier == "thorough" or n in ("@l2", "@l3"):
+        if tier == "thorough" or n in ("@l2", "@l3", "@l7"):
             U.append(({"$or": [n, "ret"]}, {"$or": [body, "ret"]}, [ML(n)], []))
             U.append(({"$not": [n]}, {"$not": [body]}, [ML(n)], []))
             U.append(({"$and_any_order": [n, "ret"]}, {"$and_any_order": [body, "ret"]}, [ML(n)], []))
@@ -208,7 +212,24 @@ def compile_text(h, doc, files, name):
     return t1, t2
 
 
-def run_shared_library(h, res, known):
+def behaviour_differs(h, ls, ma, mb):
+    """the first listing on which two compiled rules give different results, else None"""
+    for idx, path, norm, att in ls:
+        if h.match(ma, path) != h.match(mb, path):
+            return [[a, m, list(o)] for a, m, o in att]
+    return None
+
+
+def with_text(h, doc, files, text):
+    """a compiled rule object carrying the given regex text (None if the object no longer has that shape)"""
+    m = h.mop(doc, macros=files or None)
+    if not isinstance(getattr(m, "regex_rule", None), str):
+        return None
+    m.regex_rule = text
+    return m
+
+
+def run_shared_library(h, res, known, ls):
     """One extra macro file that stays UNCHANGED on disk; its arg-less macro refers to a macro every rule defines itself.
     Rules with different definitions are compiled one after the other in this process: each must equal its inlined form."""
     lib = h.write("shared_lib.yaml", yaml.safe_dump({"macros": [{"name": "@wrap", "pattern": [{"$or": ["@inner", "ret"]}]},
@@ -228,15 +249,23 @@ def run_shared_library(h, res, known):
                     res.fail({"clause": "compile", "family": "sharedlib", "rule": doc, "inlined": inl_doc, "expected": "compiles", "observed": repr(e), "size": 1}, known)
                     continue
                 if t1 != ti or t1 != t2:
-                    res.fail({"clause": "shared-library", "family": "sharedlib", "rule": doc, "inlined": inl_doc, "round": rnd,
-                              "expected": ti, "observed": t1, "size": 1}, known)
+                    # textual difference: decide by behaviour on every listing
+                    bad = behaviour_differs(h, ls, h.mop(doc, macros=[lib]), h.mop(inl_doc))
+                    m2 = with_text(h, doc, [lib], t2) if bad is None and t1 != t2 else None
+                    if bad is None and m2 is not None:
+                        bad = behaviour_differs(h, ls, h.mop(doc, macros=[lib]), m2)
+                    if bad is not None:
+                        res.fail({"clause": "shared-library", "family": "sharedlib", "rule": doc, "inlined": inl_doc, "round": rnd,
+                                  "listing": bad, "expected": ti, "observed": [t1, t2], "size": 1}, known)
+                    else:
+                        res.count("text_differs_but_equivalent")
 
 
 def run_shard(shard, tier, h, res, known):
-    if shard["lo"] == 0:
-        run_shared_library(h, res, known)
     rules = all_rules(tier)
     ls = e1.get_lsets(h, tier, build_lsets)["c13"]
+    if shard["lo"] == 0:
+        run_shared_library(h, res, known, ls)
     for ri in range(shard["lo"], len(rules), shard["n"]):
         seq = rules[ri]
         pattern_m = [copy.deepcopy(x[0]) for x in seq]
@@ -263,15 +292,18 @@ def run_shard(shard, tier, h, res, known):
                 res.fail({**case, "clause": "compile", "expected": "compiles like the inlined rule", "observed": repr(e)}, known)
                 continue
             if t1 != t2:
-                res.fail({**case, "clause": "recompile", "expected": t1, "observed": t2}, known)
+                # the second compilation of the same object gives another text: decide by behaviour
+                m2 = with_text(h, doc, files, t2)
+                bad = behaviour_differs(h, ls, h.mop(doc, macros=files or None), m2) if m2 is not None else None
+                if bad is not None:
+                    res.fail({**case, "clause": "recompile", "listing": bad, "expected": t1, "observed": t2}, known)
+                else:
+                    res.count("recompile_text_differs_but_equivalent" if m2 is not None else "recompile_text_differs_undecided")
             if t1 != inl_text:
                 # textual difference: decide by behaviour on every listing
-                ma, mb = h.mop(doc, macros=files or None), h.mop(inl_doc)
-                for idx, path, norm, att in ls:
-                    if h.match(ma, path) != h.match(mb, path):
-                        res.fail({**case, "clause": "behaviour", "listing": [[a, m, list(o)] for a, m, o in att],
-                                  "expected": inl_text, "observed": t1}, known)
-                        break
+                bad = behaviour_differs(h, ls, h.mop(doc, macros=files or None), h.mop(inl_doc))
+                if bad is not None:
+                    res.fail({**case, "clause": "behaviour", "listing": bad, "expected": inl_text, "observed": t1}, known)
                 else:
                     res.count("text_differs_but_equivalent")
         if len(res.samples) < 1:
@@ -291,7 +323,8 @@ def replay(case, h):
     if case.get("family") == "sharedlib":
         r = type("R", (), {"evaluations": 0, "nontrivial": 0, "fails": []})()
         r.fail = lambda c, k: r.fails.append(c)
-        run_shared_library(h, r, set())
+        r.count = lambda *a, **k: None
+        run_shared_library(h, r, set(), e1.get_lsets(h, "quick", build_lsets)["c13"])
         return bool(r.fails), str(r.fails)[:300]
     files = []
     for i, f in enumerate(case["macro_files"]):
